@@ -3,6 +3,7 @@
 package main
 
 import (
+	"strconv"
 	"bufio"
 	"encoding/json"
 	"fmt"
@@ -45,6 +46,12 @@ type e2eSpec struct {
 	// StallS > 0: give up only when the output directory has not changed for
 	// StallS seconds (TimeoutS is then the outer cap)
 	StallS   int      `json:"stall_s,omitempty"`
+	// OneWay > 0: the first OneWay extra addresses (10.77.k.1) carry datagrams
+	// towards the host's transfer socket in neither direction back, i.e. a
+	// candidate of the receiver at such an address works from the sender to the
+	// receiver but the receiver's answers are dropped (iptables OUTPUT rule on
+	// the host's UDP port, installed as soon as that socket exists)
+	OneWay   int      `json:"one_way,omitempty"`
 	BinDir   string   `json:"bindir"`
 	WorkDir  string   `json:"workdir"`
 }
@@ -63,6 +70,9 @@ type e2eResult struct {
 	HostTail     string `json:"host_tail"`
 	JoinTail     string `json:"join_tail"`
 	Candidates   int    `json:"local_addresses"`
+	// one-way sessions: when the drop rules were installed and how many datagrams they dropped
+	OneWayRuleMs  int64 `json:"one_way_rule_ms,omitempty"`
+	OneWayDropped int64 `json:"one_way_dropped,omitempty"`
 	JoinDump     string `json:"join_dump,omitempty"` // goroutines with repository frames after SIGQUIT
 }
 
@@ -164,6 +174,26 @@ func e2eChild(args []string) int {
 		// answer the prompts; keep stdin open afterwards (the receiver reads it)
 		_, _ = stdin.Write([]byte(spec.Stdin))
 	}()
+	if spec.OneWay > 0 {
+		go func() {
+			// install the drop rules the moment the host's transfer socket exists
+			t0 := time.Now()
+			for time.Since(t0) < 20*time.Second {
+				ports := udpPortsOfPid(host.Process.Pid)
+				if len(ports) == 0 {
+					time.Sleep(2 * time.Millisecond)
+					continue
+				}
+				for _, port := range ports {
+					for k := 1; k <= spec.OneWay; k++ {
+						_ = exec.Command("iptables", "-A", "OUTPUT", "-p", "udp", "-s", fmt.Sprintf("10.77.%d.1", k), "--dport", fmt.Sprint(port), "-j", "DROP").Run()
+					}
+				}
+				res.OneWayRuleMs = time.Since(start).Milliseconds()
+				return
+			}
+		}()
+	}
 	done := make(chan error, 1)
 	go func() { done <- join.Wait() }()
 	to := time.Duration(spec.TimeoutS) * time.Second
@@ -260,6 +290,17 @@ func e2eChild(args []string) int {
 		time.Sleep(100 * time.Millisecond)
 	}
 	res.DurMs = time.Since(start).Milliseconds()
+	if spec.OneWay > 0 {
+		if out, err := exec.Command("iptables", "-L", "OUTPUT", "-v", "-n", "-x").Output(); err == nil {
+			for _, ln := range strings.Split(string(out), "\n") {
+				f := strings.Fields(ln)
+				if len(f) > 3 && f[2] == "DROP" {
+					n, _ := strconv.ParseInt(f[0], 10, 64)
+					res.OneWayDropped += n
+				}
+			}
+		}
+	}
 	res.HostTail = errLines(hostLog) + "\n" + tailStr(hostLog, 6)
 	res.JoinTail = tailStr(joinLog, 12)
 	if res.JoinTimedOut {
@@ -369,6 +410,36 @@ func runSession(e *Env, spec e2eSpec) e2eResult {
 	return res
 }
 
+// udpPortsOfPid lists the local ports of the UDP sockets a process holds.
+func udpPortsOfPid(pid int) []int {
+	inodes := map[string]bool{}
+	fds, _ := os.ReadDir(fmt.Sprintf("/proc/%d/fd", pid))
+	for _, fd := range fds {
+		if l, err := os.Readlink(fmt.Sprintf("/proc/%d/fd/%s", pid, fd.Name())); err == nil && strings.HasPrefix(l, "socket:[") {
+			inodes[strings.TrimSuffix(strings.TrimPrefix(l, "socket:["), "]")] = true
+		}
+	}
+	var ports []int
+	for _, f := range []string{"/proc/net/udp", "/proc/net/udp6"} {
+		b, err := os.ReadFile(f)
+		if err != nil {
+			continue
+		}
+		for i, ln := range strings.Split(string(b), "\n") {
+			fs := strings.Fields(ln)
+			if i == 0 || len(fs) < 10 || !inodes[fs[9]] {
+				continue
+			}
+			if j := strings.LastIndexByte(fs[1], ':'); j >= 0 {
+				if p, err := strconv.ParseInt(fs[1][j+1:], 16, 32); err == nil && p > 0 {
+					ports = append(ports, int(p))
+				}
+			}
+		}
+	}
+	return ports
+}
+
 // e2eTree materialises a tree for a session and returns (src, out, tree).
 func e2eTree(e *Env, seed uint64, shape string, cs int64, maxBytes int64) (string, string, vk.Tree, string) {
 	base := vk.TempDir(e.Work, "e2e-")
@@ -396,6 +467,7 @@ type e2eCase struct {
 	CS       int64    `json:"cs"`
 	StallS   int      `json:"stall_s,omitempty"`
 	TimeoutS int      `json:"timeout_s,omitempty"`
+	OneWay   int      `json:"one_way,omitempty"`
 }
 
 func genE2ECases(e *Env, n int, tag string, multiAddr bool) []e2eCase {
@@ -433,14 +505,15 @@ func runE2ECases(e *Env, cases []e2eCase, par int, judge func(c e2eCase, r e2eRe
 		if c.TimeoutS > 0 {
 			to = c.TimeoutS
 		}
-		r := runSession(e, e2eSpec{ID: c.ID, Src: src, Out: out, HostArgs: c.HostArgs, JoinArgs: c.JoinArgs, Stdin: "y\n", Addrs: c.Addrs, V6: c.V6, TimeoutS: to, StallS: c.StallS, HostEnv: c.HostEnv})
+		r := runSession(e, e2eSpec{ID: c.ID, Src: src, Out: out, HostArgs: c.HostArgs, JoinArgs: c.JoinArgs, Stdin: "y\n", Addrs: c.Addrs, V6: c.V6, TimeoutS: to, StallS: c.StallS, OneWay: c.OneWay, HostEnv: c.HostEnv})
 		judge(c, r, tree, out)
 	})
 }
 
 func e2eDetail(r e2eResult) map[string]any {
 	return map[string]any{"join_exit": r.JoinExit, "join_timed_out": r.JoinTimedOut, "host_status": r.HostStatus, "setup_err": r.SetupErr,
-		"host_tail": r.HostTail, "join_tail": r.JoinTail, "join_goroutines": r.JoinDump, "dur_ms": r.DurMs, "local_addresses": r.Candidates}
+		"host_tail": r.HostTail, "join_tail": r.JoinTail, "join_goroutines": r.JoinDump, "dur_ms": r.DurMs, "local_addresses": r.Candidates,
+		"one_way_rule_ms": r.OneWayRuleMs, "one_way_datagrams_dropped": r.OneWayDropped}
 }
 
 // ---- C01: success => identical tree (real binaries) ---------------------------
@@ -562,13 +635,33 @@ func runC09E2E(e *Env) {
 			}
 		}
 	}
+	// candidates that work in one direction only: two of the three local
+	// addresses carry the sender's datagrams to the receiver but drop the
+	// receiver's answers (a mapped address without hairpinning, an asymmetric
+	// filter), so the sender's attempts there never complete and are abandoned
+	// silently; the receiver must not commit to one of them
+	for i := 0; i < e.Pick(6, 24); i++ {
+		c := e2eCase{ID: fmt.Sprintf("C09e2e-oneway-%02d", i), Shape: []string{"onefile", "nested", "manysmall"}[i%3], Seed: vk.Mix(e.Seed + uint64(i)*7919), Addrs: 3, OneWay: 2, CS: 65536}
+		if i%2 == 1 {
+			c.HostArgs = []string{"--total-connections", "1"}
+		}
+		cases = append(cases, c)
+	}
 	runE2ECases(e, cases, 8, func(c e2eCase, r e2eResult, tree vk.Tree, out string) {
 		e.R.Eval()
 		if r.SetupErr != "" {
 			e.R.Inconcl(c.ID + ": " + r.SetupErr)
 			return
 		}
-		e.R.Distinct(fmt.Sprintf("addrs%d/v6%v/%s/steered=%v", c.Addrs, c.V6, strings.Join(c.HostArgs, " "), len(c.HostEnv) > 0))
+		e.R.Distinct(fmt.Sprintf("addrs%d/v6%v/oneway%d/%s/steered=%v", c.Addrs, c.V6, c.OneWay, strings.Join(c.HostArgs, " "), len(c.HostEnv) > 0))
+		if c.OneWay > 0 {
+			if r.OneWayDropped == 0 {
+				// the rules came too late or the addresses were not used: an ordinary session
+				e.R.Count("one_way_sessions_without_dropped_datagrams")
+			} else {
+				e.R.Count("one_way_sessions_with_dropped_datagrams")
+			}
+		}
 		if len(c.HostEnv) > 0 {
 			e.R.Count("sessions_with_held_dial_completions")
 		}
@@ -582,7 +675,11 @@ func runC09E2E(e *Env) {
 		// the key is built from the structured outcome (exit status, host status,
 		// watchdog), not from log text
 		key := fmt.Sprintf("accept:session-failed:join-exit%d:host-%s", r.JoinExit, r.HostStatus)
+		if c.OneWay > 0 {
+			key = fmt.Sprintf("accept:one-way-candidate:session-failed:join-exit%d:host-%s", r.JoinExit, r.HostStatus)
+		}
 		switch {
+		case c.OneWay > 0:
 		case r.JoinTimedOut && r.HostStatus == "FAILED":
 			key = "accept:receiver-waits-forever-after-sender-gave-up"
 		case !r.JoinTimedOut && r.JoinExit == 1 && r.HostStatus == "FAILED":
@@ -591,6 +688,7 @@ func runC09E2E(e *Env) {
 		e.R.Violate(key, fmt.Sprintf("session under %d local addresses did not complete: join exit=%d timed_out=%v host=%s", r.Candidates, r.JoinExit, r.JoinTimedOut, r.HostStatus), c, e2eDetail(r))
 	})
 	e.R.Require(e.R.Counter("completed")+len(e.R.Violations) >= e.Pick(6, 40), "too few sessions ran to a verdict")
+	e.R.Require(e.R.Counter("one_way_sessions_with_dropped_datagrams") >= e.Pick(3, 12), fmt.Sprintf("only %d sessions really had a one-way candidate (datagrams dropped by the filter)", e.R.Counter("one_way_sessions_with_dropped_datagrams")))
 }
 
 // ---- C04: kill the real `thru join`, then resume --------------------------------
